@@ -38,7 +38,10 @@ def run(ctx):
         ops = r["ops"]
         o = ops[v["at"] - 1] if v["at"] else None
         # the only two positions that share a placement id (32-bit ids cannot separate 2^32 positions)
-        corner = bool(o) and any((p["r"], p["c"]) in CORNER for p in ops[: v["at"]] if p["img"] == o["img"])
+        # (the known finding needs BOTH of them in the image's history: one alone must behave)
+        # or an error response for the placement at (65535, 65535), whose id maps back to (65534, 65535))
+        mine = [p for p in ops[: v["at"]] if o and p["img"] == o["img"]]
+        corner = bool(o) and (CORNER <= {(p["r"], p["c"]) for p in mine} or any(p["op"] == "error" and (p["r"], p["c"]) == (65535, 65535) for p in mine))
         hist = [(p["op"], p["img"], (p["r"], p["c"])) for p in ops[: v["at"]]]
         ctx.fail({"why": v["why"], "corner_positions": corner}, f"history {hist}: {v['why']} {r['panic']}"[:800],
                  {"history": [{k: p[k] for k in ("op", "img", "w", "h", "r", "c", "hasp")} for p in ops], "at": v["at"]})
